@@ -259,21 +259,19 @@ func VerifC04DefaultsAllKinds() {
 // optional members are ALL absent - an empty body on the wire, StructBegin directly followed by
 // StructEnd - or absent except one: probing for absent optionals (tag 0 in particular) inside a
 // nested body must stop at its StructEnd and leave the defaults in place.
-func c04NestedOpts(name string) Opts {
-	var o Opts
-	o.ResetDefault()
+func c04NestedOpts(name string) Slim {
+	var o Slim
+	o.ResetDefault() // every member at its default: nothing is written, the body is empty
 	switch vapi.Choice(name, 3) {
 	case 1:
 		o.A = symI32(name+"a", false)
 	case 2:
-		o.Bt = vapi.Int8(name + "bt")
+		o.S = symStr(name+"s", 1)
 	}
 	return o
 }
 
-func c04OptsEq(a, b Opts) bool {
-	return vapi.And(a.A == b.A, vapi.And(a.S == b.S, vapi.And(a.B == b.B, vapi.And(a.L == b.L, vapi.And(a.C == b.C, vapi.And(a.Hi == b.Hi, a.Bt == b.Bt))))))
-}
+func c04OptsEq(a, b Slim) bool { return vapi.And(a.A == b.A, a.S == b.S) }
 
 func VerifC04NestedDefaults() {
 	v := Holder{O: c04NestedOpts("o"), Oo: c04NestedOpts("oo")}
@@ -282,7 +280,7 @@ func VerifC04NestedDefaults() {
 	}
 	var got Holder
 	// a reused target with stale nested content
-	got.O.A, got.Oo.Bt = vapi.Int32("stalea"), vapi.Int8("stalebt")
+	got.O.A, got.Oo.S = vapi.Int32("stalea"), symStr("stales", 1)
 	vapi.Check(got.ReadFrom(codec.NewReader(encode(&v))) == nil, "nested defaults: decoding succeeds")
 	eq := vapi.And(c04OptsEq(got.O, v.O), c04OptsEq(got.Oo, v.Oo))
 	eq = vapi.And(eq, len(got.Vo) == len(v.Vo))
